@@ -2,7 +2,7 @@
 # usage: tools/try_mutant.sh <patch file> <tier> <Cxx> [<Cxx> ...]
 # Applies a property-breaking patch to /repo's working tree, runs the named checks, and
 # always restores the working tree afterwards. Evidence files written meanwhile are restored too.
-patch=$1; tier=$2; shift 2
+patch=$(realpath "$1"); tier=$2; shift 2
 cd /verif || exit 2
 if ! git -C /repo diff --quiet; then echo "/repo working tree is dirty" >&2; exit 2; fi
 git -C /repo apply "$patch" || { echo "patch does not apply" >&2; exit 2; }
